@@ -1,7 +1,7 @@
 (* C19: the hypothesis of the interleaving theorem, checked on the current source:
    the library keeps no package-level state that is written after initialisation. *)
 From NV Require Import Lib.Base C19.Types Gen.GenGlobals.
-From Coq Require Import String.
+From Coq Require Import String Ascii.
 Open Scope string_scope.
 
 (* the package-level variables of the library (pinned): constant tables and the logger entries *)
@@ -15,6 +15,10 @@ Definition pair_eqb (a b : string * string) : bool := String.eqb (fst a) (fst b)
 
 Definition vars_pinned : bool :=
   eqb_list pair_eqb (map (fun v => (fst (fst v), snd (fst v))) package_vars) expected_vars.
+
+(* the pinned variables are all there; any further one must be harmless by its type (see hidden_state_free) *)
+Definition vars_ok : bool :=
+  forallb (fun e => existsb (pair_eqb e) (map (fun v => (fst (fst v), snd (fst v))) package_vars)) expected_vars.
 
 Definition is_logger_var (pkg v : string) : bool :=
   String.eqb pkg "logger" || String.prefix "logger." v.
@@ -45,7 +49,95 @@ Definition codec_imports_ok : bool :=
 Definition no_unsafe : bool :=
   forallb (fun pi => negb (existsb (String.eqb (snd pi)) ["unsafe"; "sync"; "sync/atomic"])) package_imports.
 
-Definition globals_ok : bool := vars_pinned && no_shared_writes && codec_imports_ok && no_unsafe.
+(* ---------- hidden state, per property ----------
+   The hand-written models (and the codec semantics) treat the library functions as functions of their
+   arguments.  That assumption is checked here on the current source, scoped to the files a property is
+   anchored in: every package-level variable DECLARED in such a file is one of the pinned read-only tables /
+   logger entries, or has a plain type (basic type or array of basic types) and is never written, sliced,
+   address-taken, passed on or used as a method receiver anywhere; and no function IN such a file does any of
+   that to any package-level variable (other than calling a method of a logger entry). *)
+Definition is_digit (a : Ascii.ascii) : bool :=
+  let n := Ascii.nat_of_ascii a in (Nat.leb 48 n && Nat.leb n 57)%bool.
 
-Lemma globals_checked : globals_ok = true.
-Proof. vm_compute. reflexivity. Qed.
+Fixpoint drop_arrays (fuel : nat) (s : string) : string :=
+  match fuel with
+  | O => s
+  | S f =>
+      match s with
+      | String "["%char r =>
+          match String.index 0 "]" r with
+          | Some i =>
+              let d := String.substring 0 i r in
+              if (Nat.ltb 0 i && forallb is_digit (list_ascii_of_string d))%bool
+              then drop_arrays f (String.substring (S i) (String.length r - S i) r)
+              else s
+          | None => s
+          end
+      | _ => s
+      end
+  end.
+
+Definition basic_types : list string :=
+  ["bool"; "string"; "int"; "int8"; "int16"; "int32"; "int64"; "uint"; "uint8"; "uint16"; "uint32"; "uint64";
+   "byte"; "rune"; "float32"; "float64"].
+
+Definition plain_type (t : string) : bool := existsb (String.eqb (drop_arrays 4 t)) basic_types.
+
+Definition in_scope (anchors : list string) (file : string) : bool :=
+  existsb (fun a => String.prefix a file) anchors.
+
+Definition var_type (pkg v : string) : string :=
+  match find (fun e => String.eqb (fst (fst e)) pkg && String.eqb (snd (fst e)) v) package_vars with
+  | Some e => snd e
+  | None => "?"
+  end.
+
+(* the last path component of a package ("security/zuc" -> "zuc"): how other packages name its variables *)
+Fixpoint last_component (s acc : string) : string :=
+  match s with
+  | EmptyString => acc
+  | String "/"%char r => last_component r ""
+  | String c r => last_component r (acc ++ String c "")
+  end.
+
+Definition never_touched (pkg v : string) : bool :=
+  forallb (fun u => let '(p, w, _, _) := u in
+             negb ((String.eqb p pkg && String.eqb w v) || String.eqb w (last_component pkg "" ++ "." ++ v)))
+          global_uses.
+
+Definition hidden_state_free (anchors : list string) : bool :=
+  forallb (fun e => let '(pkg, v, file) := e in
+             if in_scope anchors file
+             then existsb (pair_eqb (pkg, v)) expected_vars || (plain_type (var_type pkg v) && never_touched pkg v)
+             else true) package_var_files &&
+  forallb (fun u => let '(pkg, v, file, k) := u in
+             if in_scope anchors file then use_ok (pkg, v, "", k) else true) global_use_files.
+
+(* the files each property is anchored in (properties.jsonl, anchors.files), as path prefixes; C08's wrapper
+   delegates to the algorithm files, so their state is its state *)
+Definition anchors_C01 : list string := ["nas.go"; "nas_generated.go"; "nasMessage/NAS_"; "nasType/NAS_"].
+Definition anchors_C02 : list string := ["nas.go"; "nas_generated.go"; "nasMessage/NAS_"].
+Definition anchors_C03 : list string := ["nas.go"; "nas_generated.go"; "nasMessage/NAS_"].
+Definition anchors_C04 : list string := ["nasMessage/NAS_"; "nas_generated.go"].
+Definition anchors_C05 : list string := ["nas.go"; "nas_generated.go"].
+Definition anchors_C06 : list string := ["security/security.go"; "security/snow3g/snow3g.go"; "security/zuc/zuc.go"; "security/parameters.go"].
+Definition anchors_C07 : list string := ["security/security.go"; "security/snow3g/snow3g.go"; "security/zuc/zuc.go"].
+Definition anchors_C08 : list string := ["security/security.go"; "security/snow3g/snow3g.go"; "security/zuc/zuc.go"].
+Definition anchors_C09 : list string := ["nasType/NAS_"; "nasType/comm_util.go"].
+Definition anchors_C10 : list string := ["nas.go"; "nas_generated.go"; "nasMessage/NAS_"; "nasType/NAS_"].
+Definition anchors_C11 : list string := ["security/counter.go"].
+Definition anchors_C12 : list string := ["nasConvert/MobileIdentity5GS.go"; "nasConvert/PlmnId.go"; "nasConvert/AmfId.go"; "nasType/NAS_GUTI5G.go"; "nasType/NAS_TMSI5GS.go"; "nasType/NAS_MobileIdentity5GS.go"].
+Definition anchors_C13 : list string := ["nasConvert/Snssai.go"; "nasConvert/Nssai.go"; "nasConvert/TaiList.go"; "nasConvert/ServiceAreaList.go"; "nasConvert/Ladn.go"].
+Definition anchors_C14 : list string := ["nasConvert/MobileIdentity5GS.go"; "nasConvert/Nssai.go"; "nasConvert/Ladn.go"; "nasConvert/UESecurityCapability.go"; "nasConvert/PSI.go"; "nasConvert/UPUInfo.go"; "nasConvert/AmfId.go"; "nasConvert/Time.go"; "nasType/NAS_MobileIdentity5GS.go"; "nasType/NAS_DNN.go"].
+Definition anchors_C15 : list string := ["nasType/qos_rule.go"; "nasType/qos_flow_desc.go"].
+Definition anchors_C16 : list string := ["nasConvert/ProtocolConfigurationOptions.go"; "nasConvert/PSI.go"; "nasConvert/PDUSessionReactivationResultErrorCause.go"].
+Definition anchors_C17 : list string := ["nasConvert/GPRSTimer2.go"; "nasConvert/GPRSTimer3.go"; "nasConvert/SessionAMBR.go"; "nasConvert/Time.go"; "nasConvert/NetWorkName.go"].
+Definition anchors_C18 : list string := ["uePolicyContainer/UePolicyContainer"].
+Definition anchors_C20 : list string := ["uePolicyContainer/UPSC_Generator.go"].
+
+(* every file is in scope for C19 (the empty prefix); a further read-only table of plain type is accepted, a
+   cache, a pool, a lock or any written variable is not *)
+Definition globals_ok : bool := vars_ok && hidden_state_free [""] && no_shared_writes && codec_imports_ok && no_unsafe.
+
+(* the checks themselves are evaluated in the Props files (this file only defines them, so that a property
+   whose own files are clean still builds when another file gains state) *)
